@@ -10,6 +10,10 @@ kernel          phpy_get_thermal_properties (IR, merge mode) on symbolic tempera
 wrapper         ThermalProperties.__init__/run(lang='C'|'Py') executed in E2 on a stand-in mesh with symbolic
                 frequencies, options enumerated (pretend_real, band_indices, classical, cutoff): result == harness
                 transcription of the documented sums over the selected bands above the cutoff; T=0 => F=ZPE, S=C_V=0.
+projection      ThermalProperties(is_projection=True) executed in E2 on *symbolic complex eigenvectors* (frequencies and T
+                concrete) for band_indices none / all bands in two groups / a proper subset, pretend_real on/off: projected
+                F, S, C_V of Cartesian component i == sum_q w sum_{selected bands above the cutoff} |e_i|^2 x mode value /
+                sum_q w for all eigenvector entries (polynomial identity, monomial relaxation).
 finite          Float64 (QF_FP via cvc5): can F, S or C_V be NaN/inf for finite T in [1e-2,1e4] K, hv in [1e-6,1] eV?
 """
 import os
@@ -23,7 +27,7 @@ import z3
 
 from engine import harness, kernels, llsym, llfp, symnp, bridge
 from engine.framework import Check, Result, HarnessError, solve, model_value
-from engine.harness import assert_equal
+from engine.harness import assert_equal, box
 
 PID = "C10"
 
@@ -32,7 +36,8 @@ def units(tier):
     u = [("mode_formulas", 0), ("mode_formulas", 1), ("kernel", 0, (2, 2, 2)), ("kernel", 1, (2, 2, 2)),
          ("wrapper", "C", 0, 0), ("wrapper", "C", 0, 1), ("wrapper", "C", 1, 0), ("wrapper", "C", 1, 1),
          ("wrapper", "Py", 0, 0), ("wrapper", "Py", 0, 1), ("wrapper", "Py", 1, 0), ("wrapper", "Py", 1, 1), ("finite", "cv"), ("finite", "S"), ("finite", "F"),
-         ("finite", "cv", "Py"), ("finite", "S", "Py"), ("finite", "F", "Py")]
+         ("finite", "cv", "Py"), ("finite", "S", "Py"), ("finite", "F", "Py"),
+         ("projection", "none", 0), ("projection", "all", 0), ("projection", "subset", 0), ("projection", "none", 1), ("projection", "all", 1)]
     if tier == "thorough":
         u += [("kernel", 0, (3, 2, 3)), ("kernel", 0, (2, 3, 2)), ("kernel", 1, (3, 2, 3))]
     return u
@@ -543,6 +548,112 @@ def replay_finite(which, T, f, lang="C"):
     return (not np.isfinite(val)), "%s (%s path) at T=%r K, hv=%r eV: compiled=%r python=%r" % (which, lang, T, f, props[0, k], py)
 
 
+# ------------------------------------------------------------------ projected thermal properties
+PROJ_BI = {"none": None, "all": [[0, 1, 2], [3, 4, 5]], "subset": [[1, 2], [5]]}
+
+
+def _proj_setup(which, pretend_real):
+    nq, nb = 2, 6
+    freqs = np.array([[-1.5, 0.6, 2.2, 3.9, 5.5, 7.1], [0.3, 1.4, 2.9, 4.2, 6.0, 8.3]])
+    weights = np.array([1, 2], dtype="int64")
+    return nq, nb, freqs, weights, PROJ_BI[which], 1.0, [0.0, 300.0]
+
+
+def projection_unit(u, res):
+    """ThermalProperties(is_projection=True) on *symbolic complex eigenvectors* (frequencies, T concrete): the projected F, S, C_V
+    of Cartesian component i equal sum_q w_q sum_{selected bands above the cutoff} |e_i,band(q)|^2 x mode value / sum_q w_q,
+    for all eigenvector entries - so that they add up to the totals for normalised eigenvectors."""
+    ctx = harness.setup()
+    import phonopy.phonon.thermal_properties as tpm
+    which, pretend_real = u[1], bool(u[2])
+    nq, nb, freqs, weights, bi, cutoff, temps = _proj_setup(which, pretend_real)
+    re = harness.reals("er", nq * nb * nb); im = harness.reals("ei", nq * nb * nb)
+    E = symnp.symarray([symnp.SC(symnp.SR(a), symnp.SR(b)) for a, b in zip(re, im)], (nq, nb, nb))
+    A = box(re + im)
+    br = bridge.Bridge(ctx.shim, ctx.ir); br.install()
+    key = "%s:projection:%s:pr%d" % (PID, which, pretend_real)
+    try:
+        with symnp.session():
+            tp = tpm.ThermalProperties(FakeMesh(freqs.copy(), weights, E), cutoff_frequency=cutoff, pretend_real=pretend_real, band_indices=bi, is_projection=True)
+            tp.temperatures = temps
+            try:
+                tp.run()
+            except ValueError as exc:
+                ok, what = replay_projection(which, pretend_real, None)
+                (res.violations if ok else res.unconfirmed).append({"key": key + ":raises", "what": what or str(exc), "replay": {"unit": [str(x) for x in u]}})
+                res.queries.append({"name": "projected thermal properties with band_indices=%s are computed [ground fact]" % (bi,), "verdict": "sat", "seconds": 0.0, "nvars": 0, "nontrivial": False, "hash": "ground"})
+                res.twins.append({"name": "projection twin", "verdict": "sat"})
+                return res
+            pt, pfe, pS, pcv = tp._projected_thermal_properties
+            pfe, pS, pcv = (np.asarray(x, dtype=object) for x in (pfe, pS, pcv))
+    finally:
+        br.uninstall()
+    sel = list(range(nb)) if bi is None else [int(x) for x in np.hstack(bi)]
+    wsum = float(weights.sum())
+    want = {"F": symnp._zeros((len(temps), nb)), "S": symnp._zeros((len(temps), nb)), "Cv": symnp._zeros((len(temps), nb))}
+    for ti, T in enumerate(temps):
+        for q in range(nq):
+            for b in sel:
+                f = abs(freqs[q, b]) if pretend_real else freqs[q, b]
+                fe = f * tpm.THzToEv
+                if not fe > cutoff * tpm.THzToEv:
+                    continue
+                if T > 0:
+                    g = {"F": float(tpm.mode_F(T, np.array([fe]))[0]), "S": float(tpm.mode_S(T, np.array([fe]))[0]) * 1000, "Cv": float(tpm.mode_cv(T, np.array([fe]))[0]) * 1000}
+                else:
+                    g = {"F": fe / 2, "S": 0.0, "Cv": 0.0}
+                for i in range(nb):
+                    k = (q * nb + i) * nb + b
+                    e2 = symnp.SR(re[k]) * symnp.SR(re[k]) + symnp.SR(im[k]) * symnp.SR(im[k])
+                    for pn in ("F", "S", "Cv"):
+                        want[pn][ti, i] = want[pn][ti, i] + e2 * (g[pn] * float(weights[q]) / wsum * tpm.EvTokJmol)
+    for pn, got in (("F", pfe), ("S", pS), ("Cv", pcv)):
+        v, m, idx = assert_equal(res, "projected %s == sum_q w sum_bands |e_i|^2 x mode value / sum w (band_indices=%s, pretend_real=%s)" % (pn, bi, pretend_real),
+                                 symnp.unwrap(got), symnp.unwrap(want[pn]), A, tol=1e-7, chunk=12, relax=True)
+        if v == "sat":
+            ev = (harness.model_floats(m, re) + 1j * harness.model_floats(m, im)).reshape(nq, nb, nb)
+            ok, what = replay_projection(which, pretend_real, ev)
+            (res.violations if ok else res.unconfirmed).append({"key": key + ":" + pn, "what": what, "replay": {"unit": [str(x) for x in u], "re": ev.real.tolist(), "im": ev.imag.tolist()}})
+            break
+        elif v == "unknown":
+            res.notes.append("inconclusive " + key + ":" + pn)
+    res.twins.append({"name": "projection twin: outputs depend on the eigenvector symbols", "verdict": "sat" if any(isinstance(t, z3.ExprRef) for t in symnp.unwrap(pfe)) else "unsat"})
+    res.samples.append({"unit": res.unit, "symbols": len(re) + len(im), "band_indices": bi, "frequencies_THz": freqs.tolist(), "cutoff_THz": cutoff})
+    return res
+
+
+def replay_projection(which, pretend_real, ev):
+    """concrete: projected values against sum |e|^2 x mode value; for ev None random unitary eigenvectors are used"""
+    import warnings
+    import phonopy.phonon.thermal_properties as tpm
+    nq, nb, freqs, weights, bi, cutoff, temps = _proj_setup(which, pretend_real)
+    if ev is None:
+        rng = np.random.default_rng(3)
+        ev = np.array([np.linalg.qr(rng.normal(size=(nb, nb)) + 1j * rng.normal(size=(nb, nb)))[0] for _ in range(nq)])
+    with warnings.catch_warnings():
+        warnings.simplefilter("ignore")
+        tp = tpm.ThermalProperties(FakeMesh(freqs.copy(), weights, ev.copy()), cutoff_frequency=cutoff, pretend_real=pretend_real, band_indices=bi, is_projection=True)
+        tp.temperatures = temps
+        try:
+            tp.run()
+        except ValueError as exc:
+            return True, "ThermalProperties(is_projection=True, band_indices=%s).run() raises %s: %s" % (bi, type(exc).__name__, exc)
+    pfe = np.array(tp._projected_thermal_properties[1])
+    sel = list(range(nb)) if bi is None else [int(x) for x in np.hstack(bi)]
+    want = np.zeros((len(temps), nb))
+    for ti, T in enumerate(temps):
+        for q in range(nq):
+            for b in sel:
+                f = abs(freqs[q, b]) if pretend_real else freqs[q, b]
+                fe = f * tpm.THzToEv
+                if not fe > cutoff * tpm.THzToEv:
+                    continue
+                g = float(tpm.mode_F(T, np.array([fe]))[0]) if T > 0 else fe / 2
+                want[ti] += np.abs(ev[q][:, b]) ** 2 * g * weights[q] / weights.sum() * tpm.EvTokJmol
+    d = float(np.abs(pfe - want).max())
+    return d > 1e-7, "projected free energies differ by %.3g kJ/mol from sum_q w sum_bands |e_i|^2 F_mode / sum w (band_indices=%s, pretend_real=%s)" % (d, bi, pretend_real)
+
+
 def run_unit(u):
     res = Result("/".join(str(x) for x in u))
     kind = u[0]
@@ -554,6 +665,8 @@ def run_unit(u):
         return wrapper_unit(u, res)
     if kind == "finite":
         return finite_unit(u, res)
+    if kind == "projection":
+        return projection_unit(u, res)
     raise HarnessError(kind)
 
 
@@ -563,8 +676,9 @@ def main(tier, seed):
     us = units(tier)
     chk.bounds = ["T in (0, 1e4], hv in (0, 10] eV for the formula identities", "kernel loop: (n_q, n_bands, n_T) in {(2,2,2)} quick / +{(3,2,3),(2,3,2)} thorough, weights concrete",
                   "wrapper: 2 q-points x 4 bands, frequency boxes +-0.2 THz around anchors that do not straddle 0 or the cutoff; T in {0, 300}",
-                  "Float64 query: T in [1e-2,1e4] K, hv in [1e-6,1] eV"]
-    chk.outside = ["S = -dF/dT, C_V = T dS/dT, monotonicity and the classical limit (calculus)", "projection (is_projection) weights", "rounding other than NaN/inf-ness"]
+                  "Float64 query: T in [1e-2,1e4] K, hv in [1e-6,1] eV",
+                  "projection: 2 q-points x 6 bands/components, eigenvector entries in [-1,1], T in {0, 300}, cutoff 1 THz"]
+    chk.outside = ["S = -dF/dT, C_V = T dS/dT, monotonicity and the classical limit (calculus)", "rounding other than NaN/inf-ness"]
     chk.assumptions = ["exp/log/sinh/cosh uninterpreted; congruence only where the solver proves arguments equal; sign lemmas exp(a)>1 (a>0), exp(a) in (0,1) (a<0), sinh(a)>0 (a>0), cosh>=1",
                        "Float64 query: libm contracts (finite in -> not NaN; +inf exactly beyond the overflow thresholds 709.78 / 710.48)"]
     chk.run_units(run_unit, us)
